@@ -91,24 +91,30 @@ def run(facts, tier):
     succ = e1.cfg(facts, f)
     dom, _ = e1.dominators(succ)
     calls = [(bi, facts.callee_name(t["callee"])) for bi, t in facts.mir_calls(f) if t.get("callee")]
+    fam = facts.family(f)          # in_scope_namespace and the private pieces it may be split into (inherited_namespaces ..)
+    fam_calls = [facts.callee_name(t["callee"]) for g in fam for _, t in facts.mir_calls(g) if t.get("callee")]
     own = [bi for bi, n in calls if n == "xml_info::XmlElement::namespaces"]
-    xml = [bi for bi, n in calls if n == "xml_info::XmlNamespace::xml"]
     push = [bi for bi, n in calls if n.endswith("Vec::<T, A>::push")]
     retain = [bi for bi, n in calls if n.endswith("Vec::<T, A>::retain")]
-    rec = [bi for bi, n in calls if n.endswith("Element::in_scope_namespace") or n == f["path"]]
     checks = [
         ("own declarations first", bool(own) and all(own[0] in dom[p] for p in push)),
-        ("implicit xml binding", bool(xml) and _flows_into_push(f, "XmlNamespace::xml")),
-        ("inherits from the parent", bool(rec)),
+        ("implicit xml binding", "xml_info::XmlNamespace::xml" in fam_calls and any(_flows_into_push(g, "XmlNamespace::xml") for g in fam)),
+        ("inherits from the parent", any(n.endswith("Element::in_scope_namespace") or n == f["path"] for n in fam_calls)),
         ("empty URIs dropped after merging", bool(retain) and not any(p in e1_reach(succ, retain[0]) for p in push)),
     ]
     clos = [c for c in facts.fns.values() if c.get("parent") == f["path"]]
-    prefix_cmp = 0
-    for c in clos:
-        names = [facts.callee_name(t["callee"]).split("::")[-1] for _, t in facts.mir_calls(c) if t.get("callee")]
-        if names.count("prefix") >= 2:
-            prefix_cmp += 1
-    checks.append(("inherited and implicit bindings are shadowed by prefix", prefix_cmp >= 2))
+    # every binding that is added to the element's own declarations is added under a test that no declaration with the same
+    # prefix is there already (one loop over all inherited bindings, or one test per source)
+    def shadow_test(cond):
+        for c in walk(cond):
+            if c.get("k") == "Closure":
+                if [m.get("m") for m in walk(c["body"]) if m.get("k") == "MethodCall"].count("prefix") >= 2 and \
+                        any(m.get("k") == "Binary" and m.get("op") == "==" for m in walk(c["body"])):
+                    return True
+        return False
+    pushes = [n for n in walk(f["body"]) if n.get("k") == "MethodCall" and n["m"] == "push"]
+    guarded = [n for n in pushes if any(i.get("k") == "If" and shadow_test(i["cond"]) and any(m is n for m in walk(i["then"])) for i in walk(f["body"]))]
+    checks.append(("inherited and implicit bindings are shadowed by prefix", bool(pushes) and len(guarded) == len(pushes)))
     # the retain closure drops empty namespace names
     empties = any("is_empty" in [facts.callee_name(t["callee"]).split("::")[-1] for _, t in facts.mir_calls(c) if t.get("callee")] for c in clos)
     checks.append(("retain tests is_empty()", empties))
